@@ -2,6 +2,8 @@
    the assignment-looking regex of translate_update_expression) returns exactly the rendered targets and right-hand
    sides of a rendered assignment list. *)
 From RBQL Require Import Base Parser Parser_Proofs Parser_Tokens_Proofs Parser_TokensQuery_Proofs.
+From Coq Require String.
+Import String.StringSyntax.
 Local Open Scope N_scope.
 
 (* ------------------------------------------------------------------ rendering *)
@@ -66,6 +68,56 @@ Proof.
   intros fl r E. split.
   - pose proof (strip_span fl r 0 0 E) as H. cbn [sps repeat app] in H. rewrite app_nil_r in H. exact H.
   - intro H. subst r. discriminate E.
+Qed.
+
+Lemma lstrip_len : forall f s, (length (lstrip_by f s) <= length s)%nat.
+Proof.
+  intros f s. induction s as [|c s IH]; [apply le_n|]. cbn [lstrip_by]. destruct (f c); [|apply le_n].
+  cbn [length]. apply le_S. exact IH.
+Qed.
+
+(* conversely: a non-empty text that is its own strip satisfies edge_ok *)
+Lemma strip_edge_ok : forall fl r, r <> [] -> strip_txt fl r = r -> edge_ok fl r = true.
+Proof.
+  intros fl r Hr H. rewrite strip_txt_by in H. destruct r as [|c r']; [exfalso; apply Hr; reflexivity|].
+  unfold strip_by, rstrip_by in H. destruct (txt_ws fl c) eqn:Fc.
+  - exfalso. cbn [lstrip_by] in H. rewrite Fc in H. apply (f_equal (@length ch)) in H. rewrite rev_length in H.
+    pose proof (lstrip_len (txt_ws fl) (rev (lstrip_by (txt_ws fl) r'))) as L1. rewrite rev_length in L1.
+    pose proof (lstrip_len (txt_ws fl) r') as L2. cbn [length] in H. rewrite H in L1.
+    exact (Nat.nle_succ_diag_l _ (Nat.le_trans _ _ _ L1 L2)).
+  - cbn [lstrip_by] in H. rewrite Fc in H. unfold edge_ok. destruct (rev (c :: r')) as [|d R] eqn:RV.
+    + apply (f_equal (@length ch)) in RV. rewrite rev_length in RV. discriminate RV.
+    + rewrite Fc. cbn [negb andb]. destruct (txt_ws fl d) eqn:Fd; [exfalso | reflexivity].
+      cbn [lstrip_by] in H. rewrite Fd in H. apply (f_equal (@length ch)) in H. rewrite rev_length in H.
+      pose proof (lstrip_len (txt_ws fl) R) as L. rewrite H in L.
+      apply (f_equal (@length ch)) in RV. rewrite rev_length in RV. rewrite RV in L. cbn [length] in L.
+      exact (Nat.nle_succ_diag_l _ L).
+Qed.
+
+(* the boolean conditions, spelled out *)
+Lemma rhs_ok_spec : forall fl r,
+  rhs_ok fl r = true <-> (r <> [] /\ strip_txt fl r = r /\ starts_eq r = false /\ rhs_quiet r = true).
+Proof.
+  intros fl r. unfold rhs_ok. split.
+  - intro H. apply andb_true_iff in H. destruct H as [H Hq]. apply andb_true_iff in H. destruct H as [He Hs].
+    apply negb_true_iff in Hs. destruct (edge_ok_strip fl r He) as [E1 E2]. repeat split; assumption.
+  - intros [H1 [H2 [H3 H4]]]. rewrite (strip_edge_ok fl r H1 H2), H3, H4. reflexivity.
+Qed.
+
+Lemma quiet_in_spec : forall X r,
+  quiet_in X r = true <-> (forall x suf, r = x ++ COMMA :: suf -> assign_at (suf ++ X) = None).
+Proof.
+  intros X r. induction r as [|c t IH].
+  - split; [|reflexivity]. intros _ x suf E. destruct x; discriminate E.
+  - cbn [quiet_in]. rewrite andb_true_iff, IH. split.
+    + intros [H1 H2] x suf E. destruct x as [|c' x'].
+      * cbn [app] in E. injection E as Ec Et. subst c t. rewrite N.eqb_refl in H1.
+        destruct (assign_at (suf ++ X)); [discriminate H1 | reflexivity].
+      * cbn [app] in E. injection E as Ec Et. exact (H2 x' suf Et).
+    + intros H. split.
+      * destruct (N.eqb c COMMA) eqn:Ec; [|reflexivity]. apply N.eqb_eq in Ec. subst c.
+        rewrite (H [] t eq_refl). reflexivity.
+      * intros x suf E. apply (H (c :: x) suf). rewrite E. reflexivity.
 Qed.
 
 (* ------------------------------------------------------------------ scanning helpers *)
@@ -284,3 +336,67 @@ Proof.
   unfold asg_ok in H. unfold asg_ok_sp. apply asg_ok_pairs. exact H.
 Qed.
 Print Assumptions update_split.
+
+(* ------------------------------------------------------------------ examples *)
+Definition swap_pairs : list (str * str) := [($"a1", $"a2"); ($"a2", $"a1")].
+(* the swap, by the theorem *)
+Example update_split_swap : forall fl,
+  update_assignments fl $"a1 = a2, a2 = a1" = Ok swap_pairs
+  /\ update_assignments fl $"a1=a2,a2=a1" = Ok swap_pairs
+  /\ update_assignments fl $"  a1  =  a2  ,  a2  =  a1  " = Ok swap_pairs.
+Proof.
+  intros fl. assert (H : asg_ok fl swap_pairs = true) by (destruct fl; reflexivity).
+  split; [|split].
+  - change $"a1 = a2, a2 = a1" with (render_asg sp_common swap_pairs). exact (update_split fl _ _ H).
+  - change $"a1=a2,a2=a1" with (render_asg sp_tight swap_pairs). exact (update_split fl _ _ H).
+  - change $"  a1  =  a2  ,  a2  =  a1  " with (render_asg (fun _ => mkSp 2 2 2 2) swap_pairs).
+    exact (update_split fl _ _ H).
+Qed.
+
+(* each hypothesis is needed *)
+(* quietness: a right-hand side containing ", a3 = 1" is cut there *)
+Example need_quiet : forall fl,
+  let ps := [($"a1", $"f(a2, a3 = 1)")] in
+  rhs_quiet $"f(a2, a3 = 1)" = false
+  /\ update_assignments fl (render_asg sp_common ps) = Ok [($"a1", $"f(a2"); ($"a3", $"1)")].
+Proof. intros fl. destruct fl; vm_compute; split; reflexivity. Qed.
+
+(* look-ahead: "a1 == a2" is not an assignment; with a blank after the first "=" it is one (look_ok is exact) *)
+Example need_look : forall fl,
+  let ps := [($"a1", $"= a2")] in
+  look_ok (mkSp 0 1 0 0) $"= a2" = false
+  /\ render_asg (fun _ => mkSp 0 1 0 0) ps = $"a1 == a2"
+  /\ update_assignments fl $"a1 == a2" = Err E_update_first_assignment
+  /\ asg_ok_sp fl sp_common ps = true
+  /\ update_assignments fl $"a1 = = a2" = Ok ps.
+Proof. intros fl. destruct fl; vm_compute; repeat split; reflexivity. Qed.
+
+(* non-empty right-hand side: "a1=" has nothing for the look-ahead *)
+Example need_nonempty_rhs : forall fl,
+  update_assignments fl (render_asg sp_tight [($"a1", [])]) = Err E_update_first_assignment.
+Proof. intros fl. destruct fl; vm_compute; reflexivity. Qed.
+
+(* the right-hand side must be its own strip: the splitter returns the stripped text *)
+Example need_stripped : forall fl,
+  update_assignments fl (render_asg sp_tight [($"a1", $" a2 ")]) = Ok [($"a1", $"a2")].
+Proof. intros fl. destruct fl; vm_compute; reflexivity. Qed.
+(* ... of the flavour: a TAB is stripped by Python only *)
+Example need_stripped_flavour :
+  update_assignments LPy (render_asg sp_tight [($"a1", [9; 120])]) = Ok [($"a1", $"x")]
+  /\ update_assignments LJs (render_asg sp_tight [($"a1", [9; 120])]) = Ok [($"a1", [9; 120])].
+Proof. vm_compute; split; reflexivity. Qed.
+
+(* targets: "a" followed by class characters; a non-empty list *)
+Example need_target : forall fl,
+  update_assignments fl (render_asg sp_common [($"b1", $"2")]) = Err E_update_first_assignment
+  /\ update_assignments fl (render_asg sp_common [($"a1+", $"2")]) = Err E_update_first_assignment
+  /\ update_assignments fl (render_asg sp_common [($"a1", $"2"); ($"b2", $"3")]) = Ok [($"a1", $"2, b2 = 3")]
+  /\ update_assignments fl (render_asg sp_common []) = Err E_update_first_assignment.
+Proof. intros fl. destruct fl; vm_compute; repeat split; reflexivity. Qed.
+
+(* the condition is sufficient, not necessary: a last right-hand side ending in ",a2 =" is not cut (nothing follows the
+   "=" for the look-ahead) but is not quiet against a following comma *)
+Example quiet_not_necessary : forall fl,
+  rhs_quiet $"x,a2 =" = false
+  /\ update_assignments fl (render_asg sp_common [($"a1", $"x,a2 =")]) = Ok [($"a1", $"x,a2 =")].
+Proof. intros fl. destruct fl; vm_compute; split; reflexivity. Qed.
